@@ -41,8 +41,9 @@ def main(argv):
     tmp = tempfile.mkdtemp(prefix="c07-build-")
     objs = []
     cmds = []
-    # the heaviest parts (dispatcher instantiations) first
-    order = [k for k in (0, 6, 7) if k < nparts] + [k for k in range(nparts) if k not in (0, 6, 7)]
+    # the heaviest parts (dispatcher instantiations, special-member families) first
+    first = (0, 6, 7, 13, 12, 11)   # (13, 12, 11: the 32 flag sets of the special-member families)
+    order = [k for k in first if k < nparts] + [k for k in range(nparts) if k not in first]
     for k in order:
         obj = os.path.join(tmp, "part%d.o" % k)
         objs.append(obj)
